@@ -1,7 +1,7 @@
 #!/bin/sh
 # tools/run_all.sh [quick|thorough]: run every registered check against /repo, one line per check
 TIER=${1:-quick}
-cd /verif
+cd "$(dirname "$0")/.." || exit 2
 rc_all=0
 for i in 01 02 03 04 05 06 07 08 09 10 11 12 13 14 15 16 17 18 19 20; do
   s=$(date +%s)
